@@ -241,11 +241,61 @@ def lake_build(targets: Sequence[str], timeout: int = 3000) -> Tuple[bool, str]:
     return proc.returncode == 0, proc.stdout.decode(errors="replace")
 
 
+def imported_gens(props_modules: Sequence[str]) -> List[str]:
+    """Names of the Gen/*.lean modules which the given Lean modules import (transitively)."""
+    seen: set = set()
+    todo = list(props_modules)
+    gens: List[str] = []
+    while todo:
+        m = todo.pop()
+        if m in seen or not m.startswith("AasVerif."):
+            continue
+        seen.add(m)
+        if m.startswith("AasVerif.Gen."):
+            gens.append(m[len("AasVerif.Gen."):])
+            continue
+        f = LEAN / (m.replace(".", "/") + ".lean")
+        if not f.exists():
+            continue
+        for line in f.read_text().splitlines():
+            if line.startswith("import "):
+                todo.append(line.split()[1])
+            elif line.strip() and not line.startswith(("/-", "--", " ", "-/")) and not line.startswith("import"):
+                break
+    return sorted(gens)
+
+
+def find_gen_function(name: str) -> Any:
+    """The extractor ``gen_<name>`` wherever it is defined under harness/ (``def`` preferred over an alias)."""
+    import importlib
+
+    here = pathlib.Path(__file__).resolve().parent
+    hits: List[Tuple[int, str]] = []
+    for f in sorted(here.glob("**/*.py")):
+        text = f.read_text()
+        modname = "harness." + ".".join(f.relative_to(here).with_suffix("").parts)
+        if f"def gen_{name}(" in text:
+            hits.append((0, modname))
+        elif f"\ngen_{name} =" in text:
+            hits.append((1, modname))
+    for _, modname in sorted(hits):
+        try:
+            fn = getattr(importlib.import_module(modname), f"gen_{name}", None)
+        except BaseException:  # noqa
+            fn = None
+        if fn is not None:
+            return fn
+    return None
+
+
 def write_gen(ctx: Ctx, mod: Any, gens: Sequence[str]) -> None:
     from . import extract
 
     for name in gens:
-        fn = getattr(mod, f"gen_{name}", None) or getattr(extract, f"gen_{name}")
+        fn = getattr(mod, f"gen_{name}", None) or getattr(extract, f"gen_{name}", None) or find_gen_function(name)
+        if fn is None:
+            ctx.broken.append({"stage": "extract", "gen": name, "error": f"no extractor gen_{name} found"})
+            continue
         path = LEAN / "AasVerif" / "Gen" / f"{name}.lean"
         try:
             content = fn(REPO)
@@ -415,7 +465,10 @@ def _run(ctx: Ctx, mod: Any, replay: Optional[str]) -> int:
     prop = ctx.prop
     props_modules: List[str] = list(getattr(mod, "LEAN_PROPS", [f"AasVerif.Props.{prop}"]))
     # E
-    write_gen(ctx, mod, getattr(mod, "GEN", []))
+    # own generated models + every generated model the property theorems import (re-exported cores of other properties):
+    # the theorems are re-checked against what the code says now, not against a table generated on an earlier run
+    own_gens = list(getattr(mod, "GEN", []))
+    write_gen(ctx, mod, own_gens + [g for g in imported_gens(props_modules) if g not in own_gens])
     # B (driver first: correspondence needs it even if a theorem breaks)
     ok, log = lake_build(["driver"])
     ctx.driver_ok = ok and DRIVER.exists()
